@@ -24,6 +24,16 @@ InitWith(cfg, prefix) ==
     /\ ev = NoEv
     /\ hist = prefix
 
+(* many initial states: the prefix followed by every sub-sequence of a list of independent toggles, so that *)
+(* every COMBINATION of conditions is a start state instead of lying deep in the graph                      *)
+RECURSIVE SubLists(_)
+SubLists(q) == IF q = <<>> THEN {<<>>} ELSE LET R == SubLists(Tail(q)) IN R \cup {<<Head(q)>> \o r : r \in R}
+InitWithToggles(cfg, prefix, toggles) ==
+    \E t \in SubLists(toggles) :
+       /\ S = RunSeq(InitState(cfg), prefix \o t)
+       /\ ev = NoEv
+       /\ hist = prefix \o t
+
 NextWith(steps) ==      \* steps: the set of [c, cmd] the alphabet offers in state S
     \E st \in steps :
        LET R == Apply(S, st.c, st.cmd) IN
